@@ -225,27 +225,27 @@ def known_shapes():
                                                               ("t", concat(A, marker(1), B, create(None, None), C, create(1, "x"), D), True)]),
                 [("", ["A", "B", "C", "D"])]))
     # F3: predicate-guarded nullable alternative at end of input (phantom token)
-    out.append(("F3-guarded-nullable-branch-at-eof", _g("AB", [("s", n("f"), False),
+    out.append(("fixed-F3-guarded-nullable-branch-at-eof", _g("AB", [("s", n("f"), False),
                                                                 ("f", alt(concat(pred(1), opt(A)), B), False)]),
                 [("", []), ("", ["A"]), ("", ["B"])]))
     # F3 variant: ordered choice whose alternatives are not predicted at end of input
-    out.append(("F3-choice-at-eof", _g("ABCD", [("s", concat(A, choice(concat(B, C), concat(B, D))), False)]),
+    out.append(("fixed-F3-choice-at-eof", _g("ABCD", [("s", concat(A, choice(concat(B, C), concat(B, D))), False)]),
                 [("", ["A"]), ("", ["A", "B"]), ("", ["A", "B", "D"])]))
     # F4: guard exempts the conflict of a non-consuming recursion
     out.append(("F4-guarded-empty-recursion", _g("A", [("s", n("a"), False),
                                                         ("a", alt(concat(pred("t"), paren(), n("a")), A), False)]),
                 [("", ["A"])]))
     # F5: accepted but not compilable shapes
-    out.append(("F5-rule-only-reachable-from-part", _g("AB", [("s", A, False), ("p", concat(B, n("q")), False), ("q", A, False)], parts=["p"]),
+    out.append(("fixed-F5-rule-only-reachable-from-part", _g("AB", [("s", A, False), ("p", concat(B, n("q")), False), ("q", A, False)], parts=["p"]),
                 [("", ["A"]), ("p", ["B", "A"])]))
-    out.append(("F5-rename-in-start-rule", _g("AB", [("s", concat(A, rename("x")), False)]), [("", ["A"])]))
-    out.append(("F5-whole-create-without-elision", _g("AB", [("s", n("t"), False), ("t", concat(A, create(None, "x"), B), False)]),
+    out.append(("fixed-F5-rename-in-start-rule", _g("AB", [("s", concat(A, rename("x")), False)]), [("", ["A"])]))
+    out.append(("fixed-F5-whole-create-without-elision", _g("AB", [("s", n("t"), False), ("t", concat(A, create(None, "x"), B), False)]),
                 [("", ["A", "B"])]))
-    out.append(("F5-guarded-nullable-loop-body", _g("AB", [("s", concat(star(paren(concat(pred("t"), paren()))), A), False)]),
+    out.append(("fixed-F5-guarded-nullable-loop-body-now-rejected", _g("AB", [("s", concat(star(paren(concat(pred("t"), paren()))), A), False)]),
                 [("", ["A"])]))
-    out.append(("F5-empty-rule", _g("AB", [("s", concat(A, n("t")), False), ("t", None, False)]), [("", ["A"])]))
+    out.append(("fixed-F5-empty-rule", _g("AB", [("s", concat(A, n("t")), False), ("t", None, False)]), [("", ["A"])]))
     # F11: a non-last alternative succeeds without commit; a later mismatch in a shared rule
-    out.append(("F11-choice-flag-leaks", _g("ABCDE", [("s", concat(n("t"), n("u"), E), False),
+    out.append(("fixed-F11-choice-flag-leaks", _g("ABCDE", [("s", concat(n("t"), n("u"), E), False),
                                                        ("t", paren(choice(concat(n("u"), B, C), concat(n("u"), D))), False),
                                                        ("u", plus(A), False)]),
                 [("", ["A", "B", "C", "E"]), ("", ["A", "B", "C", "A", "E"]), ("", ["A", "D", "E"]), ("", ["A", "D", "A", "E"])]))
@@ -256,6 +256,19 @@ def known_shapes():
     # F15: creation inside a choice attempt for a marker that was set before the choice
     out.append(("F15-creation-in-attempt-for-outer-marker", _g("ABCD", [("s", concat(marker(1), A, paren(choice(concat(B, create(1, "x"), C), concat(B, D)))), False)]),
                 [("", ["A", "B", "D"]), ("", ["A", "B", "C"])]))
+    # F18: `&` in a rule that is also called from an ordered-choice alternative returns None to every caller
+    out.append(("F18-return-in-rule-shared-with-choice", _g("ABCXY", [("s", paren(choice(concat(n("r"), B), concat(n("r"), C))), False),
+                                                                       ("r", concat(n("q"), n("Y")), False),
+                                                                       ("q", concat(A, ret(), n("X")), False)], parts=["r"]),
+                [("r", ["Y"]), ("r", ["A", "X", "Y"]), ("", ["A", "X", "Y", "C"]), ("", ["X", "Y", "C"])]))
+    # repaired defects kept as regression witnesses (must stay silent)
+    out.append(("fixed-pratt-rule-in-choice", _g(["N", "P", "X"], [("s", choice(concat(n("e"), n("e"), n("e")), concat(n("e"), n("e"), n("X"))), False),
+                                                                    ("e", alt(concat(n("e"), n("P"), n("e")), n("N")), False)]),
+                [("", ["N", "N", "X"]), ("", ["N", "P", "N", "N", "X"]), ("", ["N", "N", "N"])]))
+    out.append(("fixed-part-rule-in-choice", _g("ABC", [("s", choice(concat(n("r"), A), concat(n("r"), B)), False), ("r", C, False)], parts=["r"]),
+                [("r", ["C"]), ("", ["C", "B"])]))
+    out.append(("fixed-error-state-leaks-from-attempt", _g("ABCXY", [("s", concat(A, paren(choice(concat(B, C), concat(opt(n("X")), n("Y"))))), False)]),
+                [("", ["B"]), ("", ["B", "Y"]), ("", ["A", "B"])]))
     # repaired: `e: e @x | A` (looped forever before the E015 repair) must now be rejected
     out.append(("fixed-left-recursive-branch-without-operator", _g("A", [("e", alt(concat(n("e"), rename("x")), A), False)], start="e"),
                 [("", ["A"])]))
